@@ -24,9 +24,9 @@ structure W where
   padBytes : Nat := 0
 deriving Repr, BEq, DecidableEq
 
-def W.cryptoWireLen (w : W) : Nat := (w.crypto.map (fun f => cryptoFrameLen f.1 f.2)).foldl (· + ·) 0
+def W.cryptoWireLen (w : W) : Nat := (w.crypto.map (fun f => cryptoFrameLen f.1 f.2)).sum
 def W.payloadLen (w : W) : Nat := w.cryptoWireLen + w.pings + w.padBytes
-def W.cryptoBytes (w : W) : Nat := (w.crypto.map (·.2)).foldl (· + ·) 0
+def W.cryptoBytes (w : W) : Nat := (w.crypto.map (·.2)).sum
 
 /-! ### QUICFrames.build (per-datagram layouts) -/
 
@@ -72,7 +72,7 @@ def rfFor (l : List RF) (i : Nat) : Option RF :=
 
 /-- bytes of the dry run: CRYPTO offsets relative to `base` (the dry run uses `baseOffset = 0`) -/
 def dryLen (crypto : List (Nat × Nat)) (pings base : Nat) : Nat :=
-  (crypto.map (fun f => cryptoFrameLen (f.1 - base) f.2)).foldl (· + ·) 0 + pings
+  (crypto.map (fun f => cryptoFrameLen (f.1 - base) f.2)).sum + pings
 
 /-- PADDING that `buildInternal` adds: `Length - len(dryrun)` when positive -/
 def rfPad (rf : RF) (crypto : List (Nat × Nat)) (pings base : Nat) : Nat := rf.length - dryLen crypto pings base
